@@ -172,7 +172,7 @@ def run(ctx) -> None:
     P.install_probes()
     scratch = P.Scratch()
     fes = [("pandas", {}), ("numpy-dict", {}), ("xarray-ds", {}), ("pandas", {"index": "shifted"}), ("netcdf-ds", {}),
-           ("numpy-dict", {"masked_input": True})]
+           ("numpy-dict", {"masked_input": True}), ("numpy-dict", {"time_carrier": "epoch"})]
     try:
         i = 0
         for n in range(1, ctx.pick(5, 7) + 1):
